@@ -1,7 +1,8 @@
 import KojenVerif.Lemmas.Preserv
 /-
   Single-file regeneration: what `collect` + `emplace` + output filter do to a document
-  that was generated from `F` and then edited by the user.
+  that was generated from `F₀`, edited by the user, and regenerated from a (possibly
+  different) fresh expansion `F₁`.
 -/
 namespace KojenVerif
 section
@@ -27,6 +28,7 @@ theorem Tags.get?_map_body (t : Tags L K) (B : K → List L) (k : K) :
       simp only [List.map_cons, Tags.get?, h, if_false, ih, Tags.keys, List.mem_cons, h', false_or]
       by_cases hm : k ∈ List.map (fun x => x.fst) t <;> simp [hm]
 
+omit [DecidableEq K] in
 theorem Tags.keys_map_body (t : Tags L K) (B : K → List L) :
     Tags.keys (t.map (fun kb => (kb.1, B kb.1))) = Tags.keys t := by
   simp [Tags.keys, List.map_map, Function.comp_def]
@@ -34,13 +36,13 @@ theorem Tags.keys_map_body (t : Tags L K) (B : K → List L) :
 variable (c : Cfg L K) (norm : L → L)
 
 /-- the blocks found on disk are those of `F`, each with the user's body -/
-theorem blocksOf_onDisk (B : K → List L) (F : List (Item L)) (ks : List K)
-    (h : ∀ it ∈ F, it.freshOK c norm ks) :
+theorem blocksOf_onDisk (B : K → List L) (F : List (Item L))
+    (h : ∀ it ∈ F, it.freshOK c norm) :
     blocksOf c (onDisk c norm B F) = (blocksOf c F).map (fun kb => (kb.1, B kb.1)) := by
   induction F with
   | nil => simp [onDisk, blocksOf]
   | cons it F ih =>
-    have hF : ∀ it ∈ F, it.freshOK c norm ks := fun x hx => h x (by simp [hx])
+    have hF : ∀ it ∈ F, it.freshOK c norm := fun x hx => h x (by simp [hx])
     have hit := h it (by simp)
     simp only [onDisk] at ih
     cases it with
@@ -51,12 +53,12 @@ theorem blocksOf_onDisk (B : K → List L) (F : List (Item L)) (ks : List K)
       simp [onDisk, Item.edit, blocksOf, ih hF, hno]
 
 theorem okOld_onDisk (hn : NormOK c norm) (B : K → List L) (hB : UserOK c B)
-    (F : List (Item L)) (ks : List K) (h : ∀ it ∈ F, it.freshOK c norm ks) :
+    (F : List (Item L)) (h : ∀ it ∈ F, it.freshOK c norm) :
     ∀ it ∈ onDisk c norm B F, it.okOld c := by
   induction F with
   | nil => simp [onDisk]
   | cons it F ih =>
-    have hF : ∀ it ∈ F, it.freshOK c norm ks := fun x hx => h x (by simp [hx])
+    have hF : ∀ it ∈ F, it.freshOK c norm := fun x hx => h x (by simp [hx])
     have hit := h it (by simp)
     intro x hx
     simp only [onDisk, List.map_cons, List.mem_cons] at hx
@@ -65,7 +67,7 @@ theorem okOld_onDisk (hn : NormOK c norm) (B : K → List L) (hB : UserOK c B)
       cases it with
       | text l =>
         simp only [Item.freshOK] at hit
-        simp [Item.edit, Item.okOld, hn.tag, hit.1]
+        simp [Item.edit, Item.okOld, hn.tag, hit]
       | block o cl b =>
         simp only [Item.freshOK] at hit
         obtain ⟨_, ho, hcl, _, _, _⟩ := hit
@@ -78,26 +80,26 @@ theorem collect_onDisk_get? (hn : NormOK c norm) (B : K → List L) (hB : UserOK
     (F : List (Item L)) (hF : FreshDoc c norm F) (k : K) :
     Tags.get? (collect c (render (onDisk c norm B F))) k
       = if k ∈ blockKeys c F then some (B k) else none := by
-  have hb := blocksOf_onDisk c norm B F _ hF.items
+  have hb := blocksOf_onDisk c norm B F hF.items
   have hnd : (Tags.keys (blocksOf c (onDisk c norm B F))).Nodup := by
     rw [hb, Tags.keys_map_body]; exact hF.nodup
-  rw [collect_get? c _ (okOld_onDisk c norm hn B hB F _ hF.items) hnd k, hb, Tags.get?_map_body]
+  rw [collect_get? c _ (okOld_onDisk c norm hn B hB F hF.items) hnd k, hb, Tags.get?_map_body]
   rfl
 
-theorem okNew_fresh (t : Tags L K) (F : List (Item L)) (ks : List K)
-    (ht : ∀ k, k ∉ ks → Tags.get? t k = none)
-    (h : ∀ it ∈ F, it.freshOK c norm ks) : ∀ it ∈ F, it.okNew c t := by
+/-- a fresh document is an admissible emplace target for *any* table -/
+theorem okNew_fresh (t : Tags L K) (F : List (Item L))
+    (h : ∀ it ∈ F, it.freshOK c norm) : ∀ it ∈ F, it.okNew c t := by
   intro it hit
   have := h it hit
   cases it with
   | text l =>
     simp only [Item.freshOK] at this
-    exact ht _ this.2
+    exact Cfg.lookup_of_not_tag c t l this
   | block o cl b =>
     simp only [Item.freshOK] at this
-    obtain ⟨hb, _, _, hk, _, _⟩ := this
+    obtain ⟨hb, ho, hcl, hk, _, _⟩ := this
     subst hb
-    simp [Item.okNew, hk]
+    simp [Item.okNew, hk, ho, hcl]
 
 theorem mem_blockKeys_of_mem (F : List (Item L)) (o cl : L) (b : List L)
     (h : Item.block o cl b ∈ F) : c.key o ∈ blockKeys c F := by
@@ -110,76 +112,18 @@ theorem mem_blockKeys_of_mem (F : List (Item L)) (o cl : L) (b : List L)
     · have := ih h
       cases it <;> simp_all [blockKeys, blocksOf, Tags.keys]
 
-/-- filling a fresh document from the collected table is the user's edit -/
-theorem fill_fresh (t : Tags L K) (B : K → List L) (F G : List (Item L)) (ks : List K)
-    (hsub : ∀ o cl b, Item.block o cl b ∈ F → c.key o ∈ ks)
-    (ht : ∀ k, k ∈ ks → Tags.get? t k = some (B k))
-    (h : ∀ it ∈ F, it.freshOK c norm (blockKeys c G)) :
-    F.map (Item.fill c t) = F.map (Item.setBody c B) := by
-  induction F with
-  | nil => simp
-  | cons it F ih =>
-    have hF : ∀ it ∈ F, it.freshOK c norm (blockKeys c G) := fun x hx => h x (by simp [hx])
-    have hsub' : ∀ o cl b, Item.block o cl b ∈ F → c.key o ∈ ks :=
-      fun o cl b hm => hsub o cl b (by simp [hm])
-    have hit := h it (by simp)
-    cases it with
-    | text l => simp [Item.fill, Item.setBody, ih hsub' hF]
-    | block o cl b =>
-      simp only [Item.freshOK] at hit
-      obtain ⟨hb, _⟩ := hit
-      subst hb
-      have hk := ht _ (hsub o cl [] (by simp))
-      simp [Item.fill, Item.setBody, hk, ih hsub' hF]
-
-/-- **Regeneration lemma.** Regenerating over the edited file yields the edited file,
-    each line passed through the output filter. -/
-theorem regen_onDisk (hn : NormOK c norm) (B : K → List L) (hB : UserOK c B)
-    (F : List (Item L)) (hF : FreshDoc c norm F) :
-    regenLines c norm (render F) (render (onDisk c norm B F))
-      = (render (onDisk c norm B F)).map norm := by
-  have hget := collect_onDisk_get? c norm hn B hB F hF
-  have hnew : ∀ it ∈ F, it.okNew c (collect c (render (onDisk c norm B F))) :=
-    okNew_fresh c norm _ F (blockKeys c F) (fun k hk => by rw [hget k]; simp [hk]) hF.items
-  have hfill := fill_fresh c norm (collect c (render (onDisk c norm B F))) B F F (blockKeys c F)
-    (fun o cl b hm => mem_blockKeys_of_mem c F o cl b hm)
-    (fun k hk => by rw [hget k]; simp [hk]) hF.items
-  unfold regenLines
-  rw [emplace_render c _ F hnew, hfill, render_map, render_map]
-  congr 1
-  -- both sides: every line normalised, bodies `B` normalised
-  unfold onDisk
-  simp only [List.map_map]
-  apply List.map_congr_left
-  intro it hit
-  have := hF.items it hit
-  cases it with
-  | text l => simp [Item.setBody, Item.mapLines, Item.edit, hn.idem]
-  | block o cl b =>
-    simp only [Item.freshOK] at this
-    obtain ⟨_, _, _, _, hno, _⟩ := this
-    simp [Item.setBody, Item.mapLines, Item.edit, hn.idem, hno]
-
-end
-end KojenVerif
-
-namespace KojenVerif
-section
-variable {L K : Type} [DecidableEq K]
-variable (c : Cfg L K) (norm : L → L)
-
 /-- bodies that survive a change of model: only keys the old file had -/
 def carry (c : Cfg L K) (norm : L → L) (B : K → List L) (F₀ : List (Item L)) : K → List L :=
   fun k => if k ∈ blockKeys c F₀ then (B k).map norm else []
 
-theorem fill_fresh_two (t : Tags L K) (B : K → List L) (ks : List K) (F G : List (Item L))
+theorem fill_fresh_two (t : Tags L K) (B : K → List L) (ks : List K) (F : List (Item L))
     (ht : ∀ k, Tags.get? t k = if k ∈ ks then some (B k) else none)
-    (h : ∀ it ∈ F, it.freshOK c norm (blockKeys c G)) :
+    (h : ∀ it ∈ F, it.freshOK c norm) :
     F.map (Item.fill c t) = F.map (Item.setBody c (fun k => if k ∈ ks then B k else [])) := by
   induction F with
   | nil => simp
   | cons it F ih =>
-    have hF : ∀ it ∈ F, it.freshOK c norm (blockKeys c G) := fun x hx => h x (by simp [hx])
+    have hF : ∀ it ∈ F, it.freshOK c norm := fun x hx => h x (by simp [hx])
     have hit := h it (by simp)
     cases it with
     | text l => simp [Item.fill, Item.setBody, ih hF]
@@ -191,33 +135,17 @@ theorem fill_fresh_two (t : Tags L K) (B : K → List L) (ks : List K) (F G : Li
       · simp [Item.fill, Item.setBody, ht, hk, ih hF]
       · simp [Item.fill, Item.setBody, ht, hk, ih hF]
 
-/-- text lines of the new expansion never clean to a tag key of the old file -/
-def CrossOK (c : Cfg L K) (F₀ F₁ : List (Item L)) : Prop :=
-  ∀ l, Item.text l ∈ F₁ → c.key l ∉ blockKeys c F₀
-
 /-- **Model-evolution lemma.** Old file generated from `F₀` with user bodies `B`, new
     expansion `F₁` (no relation between the two models assumed): the regenerated file is
     the fresh `F₁` with, under every tag that both have, the old body. -/
 theorem regen_two (hn : NormOK c norm) (B : K → List L) (hB : UserOK c B)
-    (F₀ F₁ : List (Item L)) (hF₀ : FreshDoc c norm F₀) (hF₁ : FreshDoc c norm F₁)
-    (hx : CrossOK c F₀ F₁) :
+    (F₀ F₁ : List (Item L)) (hF₀ : FreshDoc c norm F₀) (hF₁ : FreshDoc c norm F₁) :
     regenLines c norm (render F₁) (render (onDisk c norm B F₀))
       = render (onDisk c norm (carry c norm B F₀) F₁) := by
   have hget := collect_onDisk_get? c norm hn B hB F₀ hF₀
-  have hnew : ∀ it ∈ F₁, it.okNew c (collect c (render (onDisk c norm B F₀))) := by
-    intro it hit
-    have := hF₁.items it hit
-    cases it with
-    | text l =>
-      simp only [Item.okNew]
-      rw [hget]; simp [hx l hit]
-    | block o cl b =>
-      simp only [Item.freshOK] at this
-      obtain ⟨hb, _, _, hk, _, _⟩ := this
-      subst hb
-      simp [Item.okNew, hk]
+  have hnew := okNew_fresh c norm (collect c (render (onDisk c norm B F₀))) F₁ hF₁.items
   have hfill := fill_fresh_two c norm (collect c (render (onDisk c norm B F₀))) B (blockKeys c F₀)
-    F₁ F₁ hget hF₁.items
+    F₁ hget hF₁.items
   unfold regenLines
   rw [emplace_render c _ F₁ hnew, hfill, render_map]
   congr 1
@@ -235,8 +163,8 @@ theorem regen_two (hn : NormOK c norm) (B : K → List L) (hB : UserOK c B)
     · simp [Item.setBody, Item.mapLines, Item.edit, hno, carry, hk]
     · simp [Item.setBody, Item.mapLines, Item.edit, hno, carry, hk]
 
-theorem onDisk_congr (B B' : K → List L) (F : List (Item L)) (ks : List K)
-    (hF : ∀ it ∈ F, it.freshOK c norm ks)
+theorem onDisk_congr (B B' : K → List L) (F : List (Item L))
+    (hF : ∀ it ∈ F, it.freshOK c norm)
     (h : ∀ k ∈ blockKeys c F, B k = B' k) :
     onDisk c norm B F = onDisk c norm B' F := by
   unfold onDisk
@@ -251,11 +179,32 @@ theorem onDisk_congr (B B' : K → List L) (F : List (Item L)) (ks : List K)
     simp only [Item.edit, hno]
     rw [h _ (mem_blockKeys_of_mem c F o cl b hit)]
 
-theorem blockKeys_onDisk (B : K → List L) (F : List (Item L)) (ks : List K)
-    (hF : ∀ it ∈ F, it.freshOK c norm ks) :
+theorem map_norm_onDisk (hn : NormOK c norm) (B : K → List L) (F : List (Item L)) :
+    (render (onDisk c norm B F)).map norm = render (onDisk c norm (fun k => (B k).map norm) F) := by
+  rw [render_map]
+  congr 1
+  unfold onDisk
+  simp only [List.map_map]
+  apply List.map_congr_left
+  intro it _
+  cases it <;> simp [Item.edit, Item.mapLines, hn.idem]
+
+/-- **Regeneration lemma** (same model): the edited file, each line through the output filter. -/
+theorem regen_onDisk (hn : NormOK c norm) (B : K → List L) (hB : UserOK c B)
+    (F : List (Item L)) (hF : FreshDoc c norm F) :
+    regenLines c norm (render F) (render (onDisk c norm B F))
+      = (render (onDisk c norm B F)).map norm := by
+  rw [regen_two c norm hn B hB F F hF hF, map_norm_onDisk c norm hn]
+  congr 1
+  apply onDisk_congr c norm _ _ F hF.items
+  intro k hk
+  simp [carry, hk]
+
+theorem blockKeys_onDisk (B : K → List L) (F : List (Item L))
+    (hF : ∀ it ∈ F, it.freshOK c norm) :
     blockKeys c (onDisk c norm B F) = blockKeys c F := by
   unfold blockKeys
-  rw [blocksOf_onDisk c norm B F ks hF, Tags.keys_map_body]
+  rw [blocksOf_onDisk c norm B F hF, Tags.keys_map_body]
 
 end
 end KojenVerif
